@@ -325,6 +325,42 @@ func seqTargets(d *seqDom) []*seqTarget {
 				},
 				GoSetup: append(goMem(d, "base", ""), "vfs := failfs.New(base)", "_ = vfs.SetFailFunc(failfs.ReadOnlyFunc)"),
 			},
+			// wrappers on wrappers: what one wrapper hands to the other (error values
+			// with their paths, handles, FileInfo values) is not what a file system
+			// of the tree would hand to it
+			&seqTarget{
+				Name: "BasePathFS(RoFS(MemFS))", Kind: "vfs", FileType: "BasePathFile",
+				build: func(t *seqTarget) *seqInst {
+					return memInst(t, func(m *memfs.MemFS) avfs.VFS {
+						_ = m.WriteFile(d.px("/b/f"), []byte("xy"), 0o644)
+
+						return basepathfs.New(rofs.New(m), d.px("/b"))
+					}, "/b", "", "/b")
+				},
+				GoSetup: append(goMem(d, "base", "", "/b"), bpGo, fmt.Sprintf("vfs := basepathfs.New(rofs.New(base), %q)", d.px("/b"))),
+			},
+			&seqTarget{
+				Name: "RoFS(BasePathFS(MemFS))", Kind: "vfs", FileType: "RoFile",
+				build: func(t *seqTarget) *seqInst {
+					return memInst(t, func(m *memfs.MemFS) avfs.VFS {
+						_ = m.WriteFile(d.px("/b/f"), []byte("xy"), 0o644)
+
+						return rofs.New(basepathfs.New(m, d.px("/b")))
+					}, "/b", "", "/b")
+				},
+				GoSetup: append(goMem(d, "base", "", "/b"), bpGo, fmt.Sprintf("vfs := rofs.New(basepathfs.New(base, %q))", d.px("/b"))),
+			},
+			&seqTarget{
+				Name: "FailFS(BasePathFS(MemFS))", Kind: "vfs", FileType: "FailFile",
+				build: func(t *seqTarget) *seqInst {
+					return memInst(t, func(m *memfs.MemFS) avfs.VFS {
+						_ = m.WriteFile(d.px("/b/f"), []byte("xy"), 0o644)
+
+						return failfs.New(basepathfs.New(m, d.px("/b")))
+					}, "/b", "", "/b")
+				},
+				GoSetup: append(goMem(d, "base", "", "/b"), bpGo, fmt.Sprintf("vfs := failfs.New(basepathfs.New(base, %q))", d.px("/b"))),
+			},
 			// every consultation fails with an error of one of the kinds that
 			// composite helpers inspect (MkdirTemp and CreateTemp retry on "exists",
 			// MkdirAll and MkdirTemp look at "not exist"): a retry loop whose
